@@ -52,6 +52,12 @@ def lean_stage(pid):
             sys.path.insert(0, hdir)
         from translate import regen_all
         res["regenerated"] = regen_all.regenerate(proto.LEAN_DIR)
+        tb = (res["regenerated"] or {}).get("tables") or {}
+        for k in ("soil_problems", "crop_problems"):
+            for msg in tb.get(k) or []:
+                # the live objects do not carry what the source literals say: the translator's
+                # cross-check (tables vs running implementation) no longer holds
+                res["broken"].append(f"translator cross-check: {msg}"[:200])
     except Exception as e:  # noqa: BLE001
         res["regenerated"] = f"translator failed: {type(e).__name__}: {e}"
         res["broken"].append("translator: " + str(res["regenerated"])[:200])
@@ -137,7 +143,10 @@ def tie_stage(spec, data, tier, seed):
         stats.append(d)
         if hasattr(L, "fuzz") and hasattr(L, "FUNC"):
             nf = min(nfuzz, getattr(L, 'QUICK_N', nfuzz)) if tier == 'quick' else min(nfuzz, getattr(L, 'THOROUGH_N', nfuzz))
-            st3 = fuzzlib.direct_fuzz(L, nf, seed)
+            try:
+                st3 = fuzzlib.direct_fuzz(L, nf, seed)
+            except NotImplementedError:
+                continue        # run-level encoder: replayed from recorded runs only
             d3 = st3.as_dict()
             d3["source"] = "direct fuzz"
             d3["ulp_ties"] = 0
